@@ -42,6 +42,7 @@ type Activation struct {
 	locked  bool
 	loopModes map[string]*arrMode
 	allocNames map[string]string
+	ghostAssigned map[string]bool // ghost locals written by hooks (havocked at loop heads)
 }
 
 type retRec struct {
